@@ -245,7 +245,7 @@ def conditions(tier, seed, active):
                 names = sorted(SHAPES)
                 for sa in names:
                     for sb in names:
-                        if (sa, sb) in SAME or (sa, sb) in NEAR or sa >= sb:
+                        if (sa, sb) in SAME or (sa, sb) in NEAR or sa >= sb or rng.random() < 0.75:
                             continue
                         c("%s/%s~%s/bi/d%d" % (kw, sa, sb, d), "shaped", dict(draft=d, kw=kw, sa=sa, sb=sb, leaf="bi"), ["different"])
             # symbolic containers (general, expensive): flat arrays and scalars
